@@ -29,12 +29,16 @@ func build(kind string) *message.Message {
 		m := message.NewMessage("u", []byte("p"))
 		m.Metadata.Set("k", "v")
 		m.Ack() // the original's settlement must not leak into the copy
+		lastOrig = m
 		return m.Copy()
 	case "zero":
 		return &message.Message{}
 	}
 	panic("kind")
 }
+
+// lastOrig: the (acked) message the current `copy` message was copied from
+var lastOrig *message.Message
 
 func chanState(c <-chan struct{}) byte {
 	if c == nil {
@@ -71,6 +75,10 @@ func applyRaw(m *message.Message, op byte) (res byte) {
 		}
 	}()
 	switch op {
+	case 'O': // the original of a copy: still acked …
+		return chanState(lastOrig.Acked())
+	case 'Q': // … and not nacked, whatever was done to the copy
+		return chanState(lastOrig.Nacked())
 	case 'c':
 		// not one of the four calls the property is about: a caller passes a nil context (and survives whatever that does);
 		// the settlement calls around it must behave as if it had not happened
@@ -413,6 +421,23 @@ func main() {
 				}
 			}
 			if len(prefix) == 3 || blockedSeen >= 3 {
+				return
+			}
+			for i := 0; i < len(alphabet); i++ {
+				rec(prefix + string(alphabet[i]))
+			}
+		}
+		rec("")
+	}
+	// a copy of a settled message is a message of its own: settling it must not show on the original (O, Q read the original)
+	{
+		var rec func(prefix string)
+		rec = func(prefix string) {
+			if len(prefix) > 0 {
+				out.Case("seq copy "+prefix+"OQ", dash(runSeq("copy", prefix+"OQ")))
+				out.Count("seq.copy_then_original")
+			}
+			if len(prefix) == 3 {
 				return
 			}
 			for i := 0; i < len(alphabet); i++ {
